@@ -49,7 +49,9 @@ def regOfSchema (s : SchemaD) : Reg :=
   { types := [("Int", .int), ("Float", .float), ("String", .string), ("Boolean", .boolean), ("ID", .id)] ++
       s.types.filterMap fun t => (namedOfType t).map fun k => (t.name, k),
     -- custom scalars of SDL-built schemas have no parser of their own: `ScalarType` falls back to `default_scalar`
-    customParse := defaultScalarParse, customParseLiteral := defaultScalarParseLiteral }
+    customParse := defaultScalarParse, customParseLiteral := defaultScalarParseLiteral,
+    -- `default_scalar` brings its own `parse_literal` (`_untyped_literal`): every literal kind is handed to it
+    customHasParseLiteral := fun _ => true }
 
 /-! ### canonical text of the keyword arguments (what the resolver world hashes) -/
 
